@@ -375,6 +375,9 @@ pub fn exec(it: &mut Interp, toks: &[&str], out: &mut Vec<String>) -> bool {
             let Some(body) = bytes_arg(h) else { return false };
             let cs: Vec<char> = (0..256usize)
                 .map(|v| {
+                    if v == 2 || v == 3 {
+                        return '-'; // garbage the property says nothing about
+                    }
                     let mut b = vec![0x48u8, 0x50, 0x4f, v as u8];
                     b.extend_from_slice(&body);
                     classify(&b)
